@@ -29,8 +29,9 @@ def tasks(tier):
         t.append((W, "wick_lemma", dict(norb=n, nu=a, nd=b, order=1, prop="C03")))
     direct = [("ghf", 2, 1, 1, False, {}), ("ghf", 3, 2, 1, False, {}), ("cisd", 3, 1, 1, True, {"spin_dep": False}), ("CISD", 3, 1, 1, True, {"spin_dep": False}),
               ("CISD_THC", 3, 1, 1, True, {"spin_dep": False}), ("ucisd", 3, 2, 1, False, {}), ("UCISD", 3, 2, 1, False, {}), ("GCISD", 2, 1, 1, False, {})]
+    direct += [("cisd", 4, 2, 2, True, {"spin_dep": False}), ("cisd", 3, 2, 2, True, {"spin_dep": False})]
     if tier == "thorough":
-        direct += [("cisd", 4, 2, 2, True, {"spin_dep": False}), ("CISD", 4, 2, 2, True, {"spin_dep": False}), ("ucisd", 3, 1, 1, False, {}),
+        direct += [("CISD", 4, 2, 2, True, {"spin_dep": False}), ("ucisd", 3, 1, 1, False, {}),
                    ("UCISD", 3, 1, 1, False, {})]
     for k, n, a, b, r, extra in direct:
         t.append((W, "obs_fock", dict(kind=k, norb=n, nu=a, nd=b, what="fb", restricted=r, nchol=2 if k in ("ghf", "cisd") else 1, **extra)))
